@@ -1,12 +1,12 @@
 SPECIFICATION Spec
 CONSTANTS
-  Threads = {"r1", "r2"}
+  Threads = {"r1", "r2", "r3"}
   Names = {"n1", "n2", "n3"}
   PeerSnl <- Peer3
   NameLen <- Len3
   SendMiu = 12
-  PopHead = FALSE
-  MaxCalls = 2
+  PopHead = TRUE
+  MaxCalls = 1
   WakeCheck = TRUE
 INVARIANT ResolveReturns
 INVARIANT NoLostWakeup
